@@ -279,3 +279,20 @@ PROPS["C12"] = dict(
         dict(name="FuzzVF_C12Parsers", rapid=False, thorough=dict(shards=1, timeout=400, fuzz="120s", par=16)),
     ],
 )
+
+PROPS["C14"] = dict(
+    level="exploration", engine="in-process relay rig + E3 session", bins=True,
+    technique="property-based testing (rapid): generated client actions and server command lines through an in-process relay with the real sendConfig as the server; decoded-member narrowing oracle; generated sequences of transfers with every outcome through the same relay instances",
+    level_text="(a) handshake level: random client actions (binary, support_dir, fork, protocol 0-9, newline, absent members, unknown extra keys) and server command lines (every trz/tsz option) through an in-process "
+               "relay, inside and outside tmux; the server's answer is produced by the real sendConfig from the narrowed action. Oracle on decoded members: the ACT the server sees equals the client's except binary' = binary AND tunnel "
+               "and protocol' = min(protocol, 4); the CFG the client sees equals the server's except tmux_output_junk may turn true and a non-positive tmux_pane_width may be filled; then EXIT returns the relay to standby and a probe passes. "
+               "(b) sequences of 3-6 real transfers (succeeded, refused, failed by killing the server, stopped; uploads and downloads) through one or two relay instances on the session engine: every transfer behaves as without a relay "
+               "(files identical), the trigger reaching the client carries #R, the ACT the server saw is narrowed, and probes pass both ways after every outcome.",
+    level_note="Tunnel relaying needs real connections and is covered by the session-engine transfers of C01/C17, not by the handshake-level rig. End markers are kept within one read (DESIGN.md C14).",
+    rule="non-trivial = (a) the action requests binary (explicitly or by default) or a protocol above 4, (b) a sequence of >= 2 transfers; distinct by SHA-1 of the case JSON",
+    tests=[
+        dict(name="TestVF_C14", quick=dict(checks=4000, shards=8, timeout=600), thorough=dict(checks=200000, shards=16, timeout=6000)),
+        dict(name="TestVF_C14ServerDies", rapid=False, quick=dict(shards=2, timeout=300), thorough=dict(shards=2, timeout=300)),
+        dict(name="TestVF_C14Seq", env=dict(VERIF_CASE_LIMIT=600), quick=dict(checks=48, shards=24, timeout=900), thorough=dict(checks=1200, shards=32, timeout=10000)),
+    ],
+)
